@@ -208,7 +208,18 @@ def rule_sites(ctx, rule_id):
             rels = dominating_relations(f, c.bb)
             flag = guards.flag_guard_of(f, c.bb)
             desc = "%s: %s::%s" % (f.path, a0.split("<")[0].split("::")[-1], name)
-            if rels or flag:
+            # "on any path", literally: the tests may sit in the two arms of an
+            # earlier `if collect {..} else {..}` and rejoin before the call
+            cmp_blocks = set()
+            for b_ in range(len(f.blocks)):
+                if f.is_cleanup(b_) or f.term(b_)["k"] != "switch":
+                    continue
+                i_ = f.switch_info(b_)
+                rv_ = f.bool_def(i_["on"]) if i_ and i_["kind"] == "bool" else None
+                if rv_ and rv_[0] == "bin" and rv_[1] in guards.NEG:
+                    cmp_blocks.add(b_)
+            every_path = c.bb not in f.reach_from(0, avoid=cmp_blocks)
+            if rels or flag or every_path:
                 r.inst(desc + " — guarded by %s" % ([guards.rel_str(*x) for x in rels[:3]] or "a flag"))
                 r.unproven.append(desc + " guarded, not discharged, at %s" % c.loc)
             else:
